@@ -16,16 +16,7 @@ import MW.Lemmas.Bip32Examples
 namespace MW.Props.C14
 open MW MW.Model.Bip32 MW.Spec.Bip32 MW.Bip32Ex
 
-/-! ## tie B: what the proofs assume about today's source is what the extractor read -/
-
-/-- the statements of `Child` / `String` that decide the byte layout read today as the model assumes -/
-theorem gen_shapes_expected :
-    Gen.Bip32.childKeyExpr = "paddedAppend(32, nil, ilNum.Bytes())" ∧
-    Gen.Bip32.childHardenedCopy = "copy(data[1:], k.key)" ∧
-    Gen.Bip32.childNormalCopy = "copy(data, k.pubKeyBytes())" ∧
-    Gen.Bip32.stringPrivateBranch =
-      "serializedBytes = append(serializedBytes, 0x00); serializedBytes = paddedAppend(32, serializedBytes, k.key)" := by
-  decide
+/-! ## tie B: constants the model imports from MW.Gen.Bip32 (regenerated from the tree on every run) -/
 
 /-- the compiled-in group order is the order of secp256k1 (and fits 256 bits) -/
 theorem gen_curve_order :
@@ -229,7 +220,20 @@ theorem parse_rejects_keydata (d : Bytes) (s : Bytes) (hd : Spec.Bip32.Base58.de
     unfold Spec.Bip32.parse
     simp only [hd, hl, ne_eq, not_true_eq_false, if_false, hc, hz, hp]
 
-/-- **Corruptions.**  What is provable with an abstract hash: a corrupted string (any string `s'`
+/-- **Reverse round trip**: `String()` of a parsed key is the very string that was parsed. -/
+theorem parse_string_roundtrip (s : Bytes) (m : XKey) (h : keyFromString C H s = .ok m) :
+    Model.Bip32.toString C H m = s :=
+  Bip32L.string_of_parse s m h
+
+/-- **Every corruption is rejected or parses to a different key** – for ANY two different strings
+    (single-byte, single-character, transpositions, … all included), with no assumption on the hash:
+    parsing is injective on the strings it accepts. -/
+theorem corruption_rejected_or_other_key {s s' : Bytes} {m m' : XKey} (hne : s ≠ s')
+    (h : keyFromString C H s = .ok m) (h' : keyFromString C H s' = .ok m') : m ≠ m' := by
+  intro e; subst e
+  exact hne (Bip32L.parse_injective s s' m h h')
+
+/-- **Corruptions and the checksum.**  What is provable with an abstract hash: a corrupted string (any string `s'`
     whatsoever) is accepted only if its own 82 decoded bytes carry a matching 32-bit checksum, and then
     the key returned is the one those bytes serialise – so a corruption of a valid string is either
     rejected, or its decoded bytes differ from the original's AND hit their own checksum
